@@ -201,6 +201,13 @@ pub fn install_panic_recorder() {
     }));
 }
 
+static HOOK: std::sync::Once = std::sync::Once::new();
+
+/// make sure the (process-wide) recording panic hook is installed
+pub fn install_panic_recorder_thread() {
+    HOOK.call_once(install_panic_recorder);
+}
+
 pub fn take_last_panic() -> Option<(String, String)> {
     LAST_PANIC.with(|p| p.borrow_mut().take())
 }
